@@ -61,7 +61,8 @@ int aws_format_standard_log_line(struct aws_logging_standard_formatting_data *fo
         return AWS_OP_ERR;
     }
 
-    if (formatting_data->total_length == 0) {
+    /* the buffer has to hold at least the newline and the terminator */
+    if (formatting_data->total_length < 2) {
         return aws_raise_error(AWS_ERROR_INVALID_ARGUMENT);
     }
 
@@ -175,8 +176,13 @@ int aws_format_standard_log_line(struct aws_logging_standard_formatting_data *fo
     }
 
     /*
-     * End with a newline.
+     * End with a newline.  If the line was truncated, the index was clamped to fake_total_length, but the truncated
+     * write only stored characters up to fake_total_length - 2 followed by its terminator; the newline goes there.
      */
+    if (current_index == fake_total_length) {
+        current_index = fake_total_length - 1;
+    }
+
     int newline_written_count =
         snprintf(formatting_data->log_line_buffer + current_index, formatting_data->total_length - current_index, "\n");
     if (newline_written_count < 0) {
